@@ -29,6 +29,7 @@ structure World where
   txs : List Tx := []
   trace : List Ev := []
   plan : Option Plan := none
+  saved : Option Disk := none       -- `snapshot` / `restore` of the directory (harness bookkeeping)
   failAt : Option Nat := none     -- the next call fails at its (k+1)-th counted filesystem call
   casDropped : Bool := false      -- the `Cas` handle was dropped but an `OrphanStats` keeps the inner alive
   deriving Repr
